@@ -18,7 +18,7 @@ import warnings
 import numpy as np
 from scipy.spatial import ConvexHull
 
-from harness.common import run_guarded
+from harness.common import run_guarded, Lock, sh, COQ, ensure_makefile
 from harness.octa import parse_z_list
 from harness.shrink import shrink_list
 
@@ -853,7 +853,14 @@ def run(ctx):
     built = ctx.build_props()
     if ctx.tier == "thorough" and built:
         ctx.coqchk("MV.Props.C16")
-    run_guarded(ctx, lambda: correspondence(ctx, built), "C16 correspondence")
+    # the executable model does not depend on any proof: it is (re)built on its own so that the correspondence
+    # still runs when a proof broke
+    with Lock():
+        ensure_makefile()
+        rc, out = sh("make Model/MeshExec.vo", 600, cwd=COQ)
+    if rc != 0:
+        ctx.add_broken("broken-correspondence", "Model/MeshExec.vo does not build", out[-1500:])
+    run_guarded(ctx, lambda: correspondence(ctx, rc == 0), "C16 correspondence")
     big = bool(ctx.broken)
     nb = ctx.n(60, 700) * (5 if big else 1)
     run_guarded(ctx, lambda: search(ctx, nb, ctx.n(6, 9)), "C16 search")
